@@ -251,4 +251,69 @@ theorem tinv_follow (te : TEnv) (tm : TMeta) (ta ta' : List RHost) (h : TInv te 
   · next he => subst he; exact h
   · exact tinv_ringChanged te tm ta ta' h
 
+/-! ### schema events -/
+
+theorem schemaFold_cache (env : Env) (te : TEnv) (p : Policy) (b : List SchemaEv) : ∀ (s : SchemaSt) (ks : Nat),
+    (handleSchemaEvent env te p s b).cache.contains ks = (!(b.any (fun e => e.ks == ks)) && s.cache.contains ks) := by
+  induction b with
+  | nil => intro s ks; simp [handleSchemaEvent]
+  | cons e t ih =>
+    intro s ks
+    have hstep : (schemaStep env te p s e).cache = s.cache.filter (· != e.ks) := by cases e <;> rfl
+    show (handleSchemaEvent env te p (schemaStep env te p s e) t).cache.contains ks = _
+    rw [ih, hstep]
+    by_cases hk : e.ks = ks
+    · subst hk; simp
+    · have : (e.ks == ks) = false := by simpa using hk
+      have hne : ks ≠ e.ks := fun h => hk h.symm
+      simp [this, List.contains_eq_mem, List.mem_filter, hne]
+
+theorem schema_cache_spec (env : Env) (te : TEnv) (p : Policy) (ks : Nat) : ∀ (rev : List SchemaOp),
+    (rev.reverse.foldl (schemaOp env te p) {}).cache.contains ks = cachedSpecRev ks rev := by
+  intro rev
+  induction rev with
+  | nil => rfl
+  | cons o t ih =>
+    rw [List.reverse_cons, List.foldl_append]
+    simp only [List.foldl_cons, List.foldl_nil]
+    cases o with
+    | fill k =>
+      simp only [schemaOp, cachedSpecRev]
+      rw [← ih]
+      generalize (List.foldl (schemaOp env te p) {} t.reverse).cache = c
+      by_cases hc : c.contains k = true
+      · simp only [hc, if_true]
+        by_cases hk : k = ks
+        · subst hk
+          have : k ∈ c := by simpa using hc
+          simp [this]
+        · have : (k == ks) = false := by simpa using hk
+          simp [this]
+      · simp only [hc]
+        by_cases hk : k = ks
+        · subst hk; simp
+        · have h1 : (k == ks) = false := by simpa using hk
+          have h2 : (ks == k) = false := by simpa using fun h : ks = k => hk h.symm
+          simp [h1]
+          intro h; exact absurd h.symm hk
+    | events b =>
+      simp only [schemaOp, cachedSpecRev]
+      rw [schemaFold_cache, ih]
+
+theorem tinv_schema (env : Env) (te : TEnv) (p : Policy) (b : List SchemaEv) : ∀ (s : SchemaSt),
+    TInv te s.tm p.ta → TInv te (handleSchemaEvent env te p s b).tm p.ta := by
+  induction b with
+  | nil => intro s h; exact h
+  | cons e t ih =>
+    intro s h
+    apply ih
+    cases e with
+    | keyspace k =>
+      have hp : (pstep env te ⟨p, s.tm⟩ (.keyspaceChanged k)).p = p := by
+        simp only [pstep, pstepWith]; split <;> rfl
+      have := (pinv_step env te ⟨p, s.tm⟩ (.keyspaceChanged k) ⟨h⟩).tinv
+      rw [hp] at this
+      exact this
+    | other k => exact h
+
 end C16TokenMeta
